@@ -587,6 +587,7 @@ SCOPE = {
     'C17': (['edb.server.compiler_pool'],
             'a worker compiles against stale state'),
     'C18': (['edb.edgeql.quote', 'edb.pgsql.common', 'edb.pgsql.dbops.base',
+             'edb.pgsql.codegen',
              'edb.common.sourcecode'],
             'quoted text can break out of its quotes'),
     'C19': (['edb.server.config', 'edb.ir.statypes'],
